@@ -652,8 +652,15 @@ func (in *Interp) exec2(s Stmt, top bool) ctl {
 			in.setVar(n, vals[i])
 		}
 	case OpAssign:
+		// x op= e reads x; Go leaves the order of that read relative to a call inside e unspecified
+		if _, local := in.frames[len(in.frames)-1].vars[x.Name]; !local {
+			in.noteGlobalRead(x.Name)
+		}
 		cur := *in.lookup(x.Name)
 		v := in.eval(x.Val)
+		if now := *in.lookup(x.Name); now != cur {
+			panic(Invalid{"unspecified order: compound assignment whose right-hand side changes the target"})
+		}
 		if x.Ty == TString {
 			in.setVar(x.Name, in.capLen(cur.(string)+v.(string)))
 		} else {
